@@ -58,6 +58,10 @@ class PFile:
         s.oneof_names = {}     # (mi, g) -> name
         s.services = []        # (name, [(method, in, out)])
         s.comments = {}
+        s.file_syntax = None   # [syntax of case.proto, syntax of dep.proto] when they differ (else the schema's)
+
+    def fsyn(s, fi):
+        return s.file_syntax[fi] if s.file_syntax else s.sch.syntax
 
     # ---- names ------------------------------------------------------------------------------------------------
     def msg_path(s, mi):
@@ -335,7 +339,7 @@ def proto_texts(P):
     for fi, fname in ((0, 'case.proto'), (1, 'dep.proto')):
         if fi == 1 and not any(v == 1 for v in P.infile.values()):
             continue
-        L = ['syntax = "proto%d";' % sch.syntax]
+        L = ['syntax = "proto%d";' % P.fsyn(fi)]
         if P.pkg[fi]:
             L.append('package %s;' % P.pkg[fi])
         L.append('import "protobuf-c/protobuf-c.proto";')
@@ -440,7 +444,7 @@ def explicit_packed(P, mi, k):
     f = P.sch.msgs[mi].fields[k]
     if not (f.label == L_REP and f.type in PACKABLE):
         return None
-    dflt_packed = P.sch.syntax == 3
+    dflt_packed = P.fsyn(P.infile[mi]) == 3
     if f.packed != dflt_packed or hash((mi, k)) % 3 == 0:
         return f.packed
     return None
@@ -608,6 +612,36 @@ def corpus_pfiles():
         P.pkg = ['t', 'other.pkg']
         P.cpkg = [None, 'Y'] if variant == 0 else ['Xc', None]
         out.append(('depenum%d' % variant, P))
+    # two files of DIFFERENT syntax generated in one protoc run, each importing / imported (seeded change S80: nothing the
+    # generator learns about one file may leak into the next)
+    for variant in (0, 1):
+        P = PFile()
+        s3 = [Field('id', 1, L_NONE, T_INT32), Field('nums', 2, L_REP, T_INT32, F_PACKED), Field('name', 3, L_NONE, T_STRING, dflt=('E', None)),
+              Field('tags', 4, L_REP, T_STRING, dflt=('E', None)), Field('e', 5, L_NONE, T_ENUM), Field('oa', 6, L_NONE, T_INT32, F_ONEOF, 0),
+              Field('ob', 7, L_NONE, T_STRING, F_ONEOF, 0, dflt=('E', None)), Field('d', 8, L_NONE, T_DOUBLE), Field('raw', 9, L_NONE, T_BYTES)]
+        s2 = [Field('id', 1, L_REQ, T_INT32), Field('nums', 2, L_REP, T_INT32), Field('name', 3, L_OPT, T_STRING), Field('pk', 4, L_REP, T_SINT64, F_PACKED),
+              Field('e', 5, L_OPT, T_ENUM, dflt=('V', 2)), Field('oa', 6, L_OPT, T_INT32, F_ONEOF, 0), Field('ob', 7, L_OPT, T_STRING, F_ONEOF, 0),
+              Field('d', 8, L_OPT, T_DOUBLE, dflt=('V', 0x3ff8000000000000)), Field('raw', 9, L_OPT, T_BYTES)]
+        if variant == 0:
+            # case.proto is proto3 and uses a message of the proto2 dep.proto
+            s3.append(Field('legacy', 10, L_NONE, T_MESSAGE, sub=1))
+            msgs = [Msg('Modern', s3, ngroups=1, syntax=3), Msg('Legacy', s2, ngroups=1, syntax=2)]
+            P.file_syntax = [3, 2]
+            enums = [PEnumDef('Kind3', [('K3_ZERO', 0), ('K3_ONE', 1), ('K3_NEG', -3)], None, 0), PEnumDef('Kind2', [('K2_TWO', 2), ('K2_ZERO', 0)], None, 1)]
+        else:
+            s2.append(Field('modern', 10, L_OPT, T_MESSAGE, sub=1))
+            msgs = [Msg('Legacy', s2, ngroups=1, syntax=2), Msg('Modern', s3, ngroups=1, syntax=3)]
+            P.file_syntax = [2, 3]
+            enums = [PEnumDef('Kind2', [('K2_TWO', 2), ('K2_ZERO', 0)], None, 0), PEnumDef('Kind3', [('K3_ZERO', 0), ('K3_ONE', 1), ('K3_NEG', -3)], None, 1)]
+        P.sch = Schema(msgs, P.file_syntax[0])
+        P.enums = enums
+        P.field_enum = {(mi, i): mi for mi, m in enumerate(msgs) for i, f in enumerate(m.fields) if f.type == T_ENUM}
+        P.parent = {0: None, 1: None}
+        P.infile = {0: 0, 1: 1}
+        P.decl = {0: list(range(len(msgs[0].fields))), 1: list(range(len(msgs[1].fields)))}
+        P.oneof_names = {(0, 0): 'pick0', (1, 0): 'pick0'}
+        P.pkg = ['t', 'dep']
+        out.append(('mixsyn%d' % variant, P))
     return out
 
 
@@ -616,7 +650,7 @@ def gen_ops(P):
     L = []
     for mi, m in enumerate(sch.msgs):
         fi = P.infile[mi]
-        toks = ['gendesc', str(mi), P.msg_full(mi), m.name, P.pkg[fi] or '-', P.cpkg[fi] or '-', str(sch.syntax),
+        toks = ['gendesc', str(mi), P.msg_full(mi), m.name, P.pkg[fi] or '-', P.cpkg[fi] or '-', str(P.fsyn(fi)),
                 '1' if P.code_size(fi) else '0']
         # effective gen_init_helpers is computed by the MODEL from the option chain: file value, then each enclosing message
         chain = [tok_opt(P.file_opts[fi].get('gen_init_helpers'))] + [tok_opt(P.msg_opts.get(k, {}).get('gen_init_helpers')) for k in P.chain(mi)]
@@ -625,7 +659,7 @@ def gen_ops(P):
             f = m.fields[k]
             pl = {L_REQ: 0, L_OPT: 1, L_REP: 2, L_NONE: 3}[f.label]
             if f.oneof:
-                pl = 1 if sch.syntax == 2 else 3
+                pl = 1 if P.fsyn(fi) == 2 else 3
             fo_ = P.fopt.get((mi, k), {})
             toks += [f.name, str(f.id), str(pl), str(T_STRING if fo_.get('sab') else f.type), tok_opt(explicit_packed(P, mi, k)),
                      str(f.group) if f.oneof else '-1', P.oneof_names[(mi, f.group)] if f.oneof else '-',
